@@ -89,6 +89,9 @@ int main(int argc, char **argv) {
 		if (!vh_mine(idx++)) continue;
 		for (int align = 0; align < 8; align++) for (int fam = 0; fam < 6; fam++) check(fam, len, align, -1, 0);
 	}
+	/* page-sized and power-of-two lengths (block-at-a-time fast paths): every multiple of 4096 up to 64 KiB and 2^k, each -1/0/+1 */
+	for (int m = 1; m <= 16; m++) for (int d = -1; d <= 1; d++) { if (!vh_mine(idx++)) continue; for (int align = 0; align < 8; align += 7) for (int fam = 2; fam < 4; fam++) check(fam, (size_t) m * 4096 + d, align, -1, 0); }
+	for (int k = 11; k <= 17; k++) for (int d = -1; d <= 1; d++) { if (!vh_mine(idx++)) continue; check(3, ((size_t) 1 << k) + d, 1, -1, 0); check(2, ((size_t) 1 << k) + d, 0, -1, 0); }
 	if (vh_thorough) for (int k = 13; k <= 22; k++) for (int d = -1; d <= 1; d++) { if (!vh_mine(idx++)) continue; for (int align = 0; align < 8; align += 3) for (int fam = 2; fam < 4; fam++) check(fam, ((size_t) 1 << k) + d, align, -1, 0); }
 	/* every byte value at every position, lengths 1..16 (thorough ..40), rest zero / rest ff, every alignment */
 	int mlen = vh_thorough ? 40 : 16;
